@@ -50,12 +50,27 @@ pub fn exec(op: &Op) -> R {
     let op = &world::with(|w| op.normalize(w.handles.len(), w.weaks.len()));
     match op {
         Op::Nop => Ok(()),
-        Op::New => {
+        Op::New | Op::NewVia(_) => {
+            let via = if let Op::NewVia(k) = op { *k } else { 0 };
             let id = world::with(|w| w.next_id());
             let node = Node::new(id);
+            let boxed = if via == 2 { Some(Box::new(Node::new(id))) } else { None };
             let rc = {
                 let _l = LibGuard::enter();
-                Rc::new(node)
+                match via {
+                    1 => Rc::from(node),
+                    2 => {
+                        std::mem::forget(node);
+                        Rc::from(boxed.unwrap())
+                    }
+                    3 => {
+                        let mut u = Rc::<Node>::new_uninit();
+                        Rc::get_mut(&mut u).expect("fresh allocation is unique").write(node);
+                        unsafe { u.assume_init() }
+                    }
+                    4 => unsafe { std::pin::Pin::into_inner_unchecked(Rc::pin(node)) },
+                    _ => Rc::new(node),
+                }
             };
             let addr = Rc::as_ptr(&rc) as usize;
             world::with(|w| {
@@ -252,6 +267,26 @@ pub fn exec(op: &Op) -> R {
             drop(v);
             let t = w.objs[*o as usize].wheld.remove(*k);
             w.push_weak(wk, t);
+            Ok(())
+        }),
+        Op::WeakRawRound(slot) => world::with(|w| {
+            let wk = w.weaks.get_mut(*slot).and_then(|h| h.take()).ok_or("wrawround: empty slot")?;
+            let t = w.wtarget[*slot];
+            let (same, back) = {
+                let _l = LibGuard::enter();
+                let ap = wk.as_ptr();
+                let raw = wk.into_raw();
+                (ap == raw, unsafe { Weak::from_raw(raw) })
+            };
+            if !same {
+                w.viol("count", false, format!("Weak::into_raw differs from Weak::as_ptr for a Weak to {:?}", t));
+            }
+            if let Some(t) = t {
+                if w.objs[t as usize].state == St::Alive && back.as_ptr() as usize != w.objs[t as usize].addr {
+                    w.viol("count", false, format!("Weak::as_ptr of a Weak to live #{} is {:#x}, the value lives at {:#x}", t, back.as_ptr() as usize, w.objs[t as usize].addr));
+                }
+            }
+            w.weaks[*slot] = Some(back);
             Ok(())
         }),
         Op::WeakNew => world::with(|w| {
@@ -850,7 +885,7 @@ fn op_touches(w: &World, op: &Op) -> Option<Vec<ObjId>> {
         Some(())
     };
     match op {
-        Op::New | Op::WeakNew | Op::Nop | Op::Panic => {}
+        Op::New | Op::NewVia(_) | Op::WeakNew | Op::WeakRawRound(_) | Op::Nop | Op::Panic => {}
         Op::Clone(r) | Op::Downgrade(r) | Op::IncStrong(r) => h(r, &mut v)?,
         Op::Adopt(a, b) | Op::Unadopt(a, b) => {
             h(a, &mut v)?;
